@@ -39,9 +39,12 @@ const (
 	sDifference
 	sEqual
 	sRoundTrip
+	mDeleteMany // a chain of Map.Delete calls; every intermediate value is checked, the last one joins the pool
+	sDeleteMany
+	mTxnDeleteMany
 )
 
-var msNames = []string{"map.Set", "map.Delete", "map.Read", "FromMap", "txn.Begin", "txn.Set", "txn.Delete", "txn.Read", "txn.Commit", "txn.Drop", "map.Equal", "map.RoundTrip", "set.New", "set.Set", "set.Delete", "set.Read", "set.Union", "set.Difference", "set.Equal", "set.RoundTrip"}
+var msNames = []string{"map.Set", "map.Delete", "map.Read", "FromMap", "txn.Begin", "txn.Set", "txn.Delete", "txn.Read", "txn.Commit", "txn.Drop", "map.Equal", "map.RoundTrip", "set.New", "set.Set", "set.Delete", "set.Read", "set.Union", "set.Difference", "set.Equal", "set.RoundTrip", "map.DeleteMany", "set.DeleteMany", "txn.DeleteMany"}
 
 type MSOp struct {
 	K    int      `json:"k"`
@@ -417,6 +420,48 @@ func runMapSet(c MSCase) (res msResult) {
 			w := cloneMap(m.want)
 			delete(w, o.Key)
 			maps = append(maps, &mapMember{nm, w, fmt.Sprintf("Delete(%q) at step %d on #%d", o.Key, step, idx)})
+		case mDeleteMany:
+			m, idx := pickM(o.A)
+			note(m, idx)
+			nm, w := m.m, cloneMap(m.want)
+			for _, k := range o.Keys {
+				nm = nm.Delete(k)
+				delete(w, k)
+				if e := checkMap(fmt.Sprintf("after Delete(%q) in a chain of deletes on #%d", k, idx), nm, k, w); e != nil {
+					err = fail("map-read", e)
+					break
+				}
+			}
+			maps = append(maps, &mapMember{nm, w, fmt.Sprintf("Delete chain %q at step %d on #%d", o.Keys, step, idx)})
+		case sDeleteMany:
+			sm := pickS(o.A)
+			ns, w := sm.s, cloneSet(sm.want)
+			for _, k := range o.Keys {
+				ns = ns.Delete(k)
+				delete(w, k)
+				if e := checkSet(fmt.Sprintf("after Delete(%q) in a chain of deletes", k), ns, w); e != nil {
+					err = fail("set-read", e)
+					break
+				}
+			}
+			sets = append(sets, &setMember{ns, w, fmt.Sprintf("Set delete chain %q at step %d", o.Keys, step)})
+		case mTxnDeleteMany:
+			if len(txns) > 0 {
+				t := txns[o.B%len(txns)]
+				for _, k := range o.Keys {
+					_, wok := t.want[k]
+					ok := t.txn.Delete(k)
+					delete(t.want, k)
+					if ok != wok {
+						err = fail("maptxn", fmt.Errorf("MapTxn.Delete(%q)=%v, model %v", k, ok, wok))
+						break
+					}
+					if g, gok := t.txn.Get(""); gok != hasKey(t.want, "") || (gok && g.N != t.want[""]) {
+						err = fail("maptxn", fmt.Errorf("after MapTxn.Delete(%q): Get(\"\")=%v,%v, model %v,%v", k, g.N, gok, t.want[""], hasKey(t.want, "")))
+						break
+					}
+				}
+			}
 		case mRead:
 			m, idx := pickM(o.A)
 			if e := checkMap(fmt.Sprintf("map member #%d (%s)", idx, m.origin), m.m, o.Key, m.want); e != nil {
@@ -645,10 +690,33 @@ func runMapSet(c MSCase) (res msResult) {
 	return res
 }
 
+// wideKeys: 36 one-character keys (distinct first bytes below the empty key)
+// and 20 keys below "a": with them a node that holds a value of its own grows
+// and shrinks through the 4/16/48 child thresholds.
+var wideKeys = func() []string {
+	var out []string
+	for c := 'A'; c <= 'Z'; c++ {
+		out = append(out, string(c))
+	}
+	for c := '0'; c <= '9'; c++ {
+		out = append(out, string(c))
+	}
+	for c := 'A'; c < 'A'+20; c++ {
+		out = append(out, "a"+string(c))
+	}
+	return out
+}()
+
 func genMSCase(t *rapid.T) MSCase {
 	key := rapid.SampledFrom(msKeys)
+	maxKeys := 4
 	kinds := []int{mSet, mSet, mSet, mDelete, mDelete, mRead, mFromMap, mFromMap, mTxnBegin, mTxnSet, mTxnSet, mTxnDelete, mTxnRead, mTxnCommit, mTxnCommit, mTxnDrop, mEqual, mRoundTrip,
 		sNew, sSet, sSet, sDelete, sRead, sUnion, sDifference, sEqual, sRoundTrip}
+	if rapid.IntRange(0, 2).Draw(t, "wide") == 0 {
+		key = rapid.OneOf(rapid.SampledFrom(msKeys), rapid.SampledFrom(wideKeys), rapid.SampledFrom(wideKeys))
+		maxKeys = 56
+		kinds = append(kinds, mDeleteMany, mDeleteMany, sDeleteMany, sDeleteMany, mTxnDeleteMany, mFromMap, sNew)
+	}
 	genOp := rapid.Custom(func(t *rapid.T) MSOp {
 		o := MSOp{K: rapid.SampledFrom(kinds).Draw(t, "k")}
 		o.A = rapid.IntRange(0, 9).Draw(t, "a")
@@ -658,8 +726,12 @@ func genMSCase(t *rapid.T) MSCase {
 		o.B = rapid.IntRange(0, 9).Draw(t, "b")
 		o.Key = key.Draw(t, "key")
 		o.Val = rapid.IntRange(0, 9).Draw(t, "val")
-		if o.K == mFromMap || o.K == sNew {
-			o.Keys = rapid.SliceOfNDistinct(key, 0, 4, rapid.ID[string]).Draw(t, "keys")
+		if o.K == mFromMap || o.K == sNew || o.K == mDeleteMany || o.K == sDeleteMany || o.K == mTxnDeleteMany {
+			n := 4
+			if maxKeys > 4 {
+				n = rapid.SampledFrom([]int{2, 4, 5, 16, 17, 18, 40, maxKeys}).Draw(t, "nkeys")
+			}
+			o.Keys = rapid.SliceOfNDistinct(key, 0, n, rapid.ID[string]).Draw(t, "keys")
 			o.Vals = rapid.SliceOfN(rapid.IntRange(10, 19), len(o.Keys), len(o.Keys)).Draw(t, "vals")
 		}
 		return o
@@ -667,7 +739,7 @@ func genMSCase(t *rapid.T) MSCase {
 	return MSCase{Ops: vk.Ops(t, genOp, 20, "ops")}
 }
 
-const ruleC17 = "branching histories of 1..44 operations over pools of part.Map[string,int] and part.Set[string] versions (keys over {\"\",a,b,ab,ba,abc,b0,é,\"a b\"}): Set/Delete/FromMap on any earlier member, MapTxn (up to two open, used further after Commit, interleaved with operations on other members), EqualKeys/SlowEqual, Union/Difference/Equal, JSON and YAML round-trips; every result and, after every step, every pool member and open transaction is compared with a Go map model. Non-trivial = an operation applied to a singleton or to an older (non-latest) member; distinct by case encoding."
+const ruleC17 = "branching histories of 1..44 operations over pools of part.Map[string,int] and part.Set[string] versions (keys over {\"\",a,b,ab,ba,abc,b0,é,\"a b\"}; in a third of the cases also 36 one-character keys and 20 keys below \"a\", with FromMap/NewSet of up to 56 keys, so that value-holding nodes cross the 4/16/48 child thresholds): Set/Delete/FromMap on any earlier member, MapTxn (up to two open, used further after Commit, interleaved with operations on other members), EqualKeys/SlowEqual, Union/Difference/Equal, JSON and YAML round-trips; every result and, after every step, every pool member and open transaction is compared with a Go map model. Non-trivial = an operation applied to a singleton or to an older (non-latest) member; distinct by case encoding."
 
 func TestC17MapSet(t *testing.T) {
 	const test = "TestC17MapSet"
@@ -690,4 +762,9 @@ func TestC17MapSet(t *testing.T) {
 			vk.Fail(rt, "C17", test, c, res.sig, "%v", res.err)
 		}
 	})
+}
+
+func hasKey(m map[string]int, k string) bool {
+	_, ok := m[k]
+	return ok
 }
